@@ -196,4 +196,9 @@ example : ∃ t, Tokener.new 2 0 = some t ∧
     (parseExZ refLibc t [91, 91, 49, 93, 93]).err = .depth ∧ (parseExZ refLibc t [91, 91, 49, 93, 93]).offset = 2 := by
   refine ⟨_, rfl, ?_, ?_, ?_⟩ <;> decide
 
+
+/-- every source fact this property's model consumes was located in the current source by tools/extract (a fact that is not
+found is emitted with a placeholder value; this obligation then fails and the check uses the reference model) -/
+theorem source_facts_located_c15 : JsonC.Generated.factsFound_tok = true := by decide
+
 end JsonC.Tokener
